@@ -113,6 +113,7 @@ func rulesC18(p *Prog, r *Report) {
 
 	rateFamilyRule(p, r, "R18.5")
 	accrualClockRule(p, r, "R18.6")
+	accrualBaseRule(p, r, "R18.7")
 
 	// tracker stores ------------------------------------------------------------------
 	type trackerStore struct {
@@ -519,6 +520,81 @@ func accrualClockRule(p *Prog, r *Report, rule string) {
 				r.OK(rule, construct, "the position's LastInteractionTime is set to the block time on the same paths", p.instrPos(s.st))
 			} else {
 				r.Fail(rule, construct, "the position's accrual index is refreshed and the function can succeed without refreshing its accrual clock (LastInteractionTime = block time): the interval just charged is charged again by the next interaction", p.instrPos(s.st), nil)
+			}
+		}
+	}
+}
+
+// accrualBaseRule (R18.7): the amount an accrual formula is applied to is not a field the
+// same function credits: a base that the accrual itself increases compounds on every trigger,
+// so triggering more often pays more than a single accrual over the same time.
+func accrualBaseRule(p *Prog, r *Report, rule string) {
+	r.Rule(rule, "lend: the base of an accrual formula is not a field the same function increases", 2)
+	for _, fn := range p.Funcs {
+		if moduleOf(fn) != "lend" || p.isAuxFn(fn) || len(fn.Blocks) == 0 || !strings.HasSuffix(fnPkgPath(fn), "/keeper") {
+			continue
+		}
+		n := 0
+		for _, c := range calls(fn) {
+			sc := c.Common().StaticCallee()
+			if sc == nil || !isComdexFn(sc) || !strings.HasPrefix(sc.Name(), "Calculate") || !(strings.HasSuffix(sc.Name(), "Interest") || strings.HasSuffix(sc.Name(), "Reward")) {
+				continue
+			}
+			args := callArgs(c)
+			if len(args) < 2 {
+				continue
+			}
+			base := args[1]
+			type fp struct {
+				typ, field string
+			}
+			var fields []fp
+			for _, o := range p.DeepOrigins(base) {
+				if len(o.Path) == 0 {
+					continue
+				}
+				for i := range o.Path {
+					sub := o
+					sub.Path = o.Path[:i+1]
+					if tn := pathBaseTypeName(sub); tn == "LendAsset" || tn == "BorrowAsset" {
+						fields = append(fields, fp{tn, o.Path[i]})
+					}
+				}
+			}
+			if len(fields) == 0 {
+				continue
+			}
+			n++
+			r.Instance(rule)
+			r.FuncsSeen[fname(fn)] = true
+			construct := fmt.Sprintf("%s base of %s #%d", fname(fn), sc.Name(), n)
+			bad := ""
+			for _, b := range fn.Blocks {
+				for _, in := range b.Instrs {
+					st, ok := in.(*ssa.Store)
+					if !ok {
+						continue
+					}
+					sb, path := addrBase(st.Addr)
+					tn := namedTypeName(derefAll(sb.Type()))
+					if len(path) == 0 {
+						continue
+					}
+					op, recv, _, isAS := addSubOf(st.Val)
+					if !isAS || op != "Add" {
+						continue
+					}
+					for _, f := range fields {
+						if f.typ == tn && f.field == path[0] && p.fromRecordFieldsLoose(recv, map[string]bool{tn: true}, map[string]bool{f.field: true}) {
+							bad = tn + "." + f.field
+						}
+					}
+				}
+			}
+			if bad == "" {
+				r.OK(rule, construct, "the base is not increased by this function", p.instrPos(c))
+			} else {
+				r.Fail(rule, construct, "the accrual is computed on "+bad+", which this same function increases (by what was accrued): every trigger compounds, and triggering more often pays more than one accrual over the same time", p.instrPos(c), nil)
 			}
 		}
 	}
